@@ -1041,6 +1041,11 @@ class MutableFileVersion:
         offset. I return a Deferred that fires when this has been
         completed.
         """
+        # We do a whole file re-encode if the file is an SDMF file.
+        if self._version[2]: # version[2] == SDMF salt, which MDMF lacks
+            log.msg("doing re-encode instead of in-place update")
+            return self._do_modify_update(data, offset)
+
         new_size = data.get_size() + offset
         old_size = self.get_size()
         segment_size = self._version[3]
@@ -1050,11 +1055,6 @@ class MutableFileVersion:
                                              segment_size)
         log.msg("got %d old segments, %d new segments" % \
                         (num_old_segments, num_new_segments))
-
-        # We do a whole file re-encode if the file is an SDMF file.
-        if self._version[2]: # version[2] == SDMF salt, which MDMF lacks
-            log.msg("doing re-encode instead of in-place update")
-            return self._do_modify_update(data, offset)
 
         # Otherwise, we can replace just the parts that are changing.
         log.msg("updating in place")
